@@ -254,6 +254,14 @@ def series_tie():
                     "SeriesGen.")
 
 
+def tick_tie():
+    """Market._update_time (C06, C08): the clock step - expiry of both sides, room in the series, carry-over of the prices"""
+    import py2coq_tick
+    src = os.path.join(REPO, "pams", "market.py")
+    return _run_tie("translator:pams/market.py(_update_time)", src, lambda: py2coq_tick.translate(REPO), "TickGen.v", "TickC06Proofs.v",
+                    "TickGen.")
+
+
 def runner_tie():
     """the per-order block of SequentialRunner._handle_orders, both copies (C09, C11)"""
     import py2coq_runner
